@@ -18,7 +18,10 @@ def geometry_violation(doc, impl_out):
     if clone_negative(doc['root']):
         return None     # known finding clone-negative-margin-bottom: the reserved bottom space becomes negative
 
+    styles = {}
+
     def heights(box):
+        styles[box['id']] = box['st']
         if box['kind'] == 'para':
             line_h[box['id']] = box['lineH']
         for kid in box['kids']:
@@ -48,7 +51,34 @@ def geometry_violation(doc, impl_out):
         bad = decoration_overflow(page, limit, frozenset(nxt))
         if bad:
             return bad
+        bad = block_content_overflow(page, limit, styles)
+        if bad:
+            return bad
     return None
+
+
+def block_content_overflow(page, limit, styles):
+    """"No unbreakable block ends below the bottom edge unless it is the first content placed on that page": the
+    content box of every block fragment (fixed-height and empty blocks cannot be fragmented any further; a fragmented
+    block is cut at the page bottom) ends above the page bottom, unless the fragment lies on the chain of first
+    children from the root (`page_is_empty` with no child placed before it, at every level). Boxes through which
+    margins collapse (no content placed, height auto or 0, no min-height, padding or border) have no extent of their
+    own and are skipped."""
+    def walk(frag, on_first_chain):
+        y, mt, mb, pt, pb, bt, bb, h = [Fraction(x) for x in frag[3:11]]
+        content_bottom = y + mt + bt + pt + h
+        st = styles[int(frag[1])]
+        through = (not frag[-1] and not (pt or pb or bt or bb) and st['height'] in ('auto', 0) and not st['minH'])
+        if not on_first_chain and not through and content_bottom > limit:
+            return (f'page {page[1]}: the content box of box {frag[1]} ends at {content_bottom}, below the page '
+                    f'bottom, and the box is not the first content of the page')
+        if frag[0] == 'b':
+            for i, kid in enumerate(frag[-1]):
+                bad = walk(kid, on_first_chain and i == 0)
+                if bad:
+                    return bad
+        return None
+    return walk(page[-1], True)
 
 
 def decoration_overflow(page, limit, continued=frozenset()):
@@ -105,6 +135,15 @@ class C03(PropCheck):
             'random block/paragraph documents, whole pagination compared exactly including position_y/height of '
             'every line and box; non-trivial = at least 2 pages')
         pm_corr.add_cases(run, sec, run.n(250, 6000))
+        sec_edge = run.section(
+            'pm-edge-family',
+            'deterministic family (harness/pm.py edge_docs): blocks that cannot be fragmented (fixed height with or '
+            'without lines, empty blocks with padding/border) after 0/6/7/8 lines on a 100px page, every combination of '
+            'top margin/border/padding, bottom padding, alone / wrapped / with lines, so that each edge of the box falls '
+            'on either side of the page bottom; whole pagination compared exactly; quick: a seeded sample of 250, '
+            'thorough: all 752; non-trivial = at least 2 pages')
+        edge = list(pm.edge_docs())
+        pm_corr.add_docs(run, sec_edge, edge if run.thorough else run.rng.sample(edge, 250))
         sec_oof = run.section(
             'pm-oof-documents',
             'stage 2a of the pagination model (Model/PaginateOof): absolutely positioned boxes, full-width floats, clear; '
@@ -157,13 +196,12 @@ class C03(PropCheck):
         return None
 
     def finding_replays(self):
-        return {'table-in-columns-rows-overflow': table_in_columns_overflow,
+        return {**pm_stage2.finding_replays(),
+                'table-in-columns-rows-overflow': table_in_columns_overflow,
                 'clone-negative-margin-bottom': clone_negative_margin,
                 'table-rows-after-overflowing-first-item': lambda: corpus_overflow('table_rows_after_overflow'),
                 'stale-next-page-blank-pages': lambda: stale_next_page()[0],
-                'footnote-named-page-area-overlap': pm_foot_corr.FINDING_REPLAYS['footnote-named-page-area-overlap'],
-                'columns-negative-margin-bottom-overflow':
-                    lambda: pm_col_corr.replay_witness('columns_negative_margin_bottom')}
+                'earlier-break-keeps-bottom-decoration': earlier_break_keeps_decoration}
 
     def judge(self, d):
         if d['section'] == 'families':
@@ -236,6 +274,28 @@ def stale_next_page():
     return blanks > 1, first != list(range(first[0], first[0] + len(first))) if first else False
 
 
+EARLIER_DECO = (
+    '<style>@page{size:200px 50px;margin:0}html,body,p{margin:0}body{font-size:2px;line-height:10px}</style>'
+    '<div style="padding-bottom:5px;break-after:avoid-page"><p>a0<br>a1<br>a2<br>a3<br>a4</p></div><p>b0</p>')
+
+
+def earlier_break_keeps_decoration():
+    """The block cut by find_earlier_page_break keeps its bottom padding (and the height of its whole layout) on
+    the first page although it is continued on the second: its border box ends below the page bottom
+    (model: Witness/C03.earlier_break_keeps_bottom_decoration)."""
+    from weasyprint.formatting_structure import boxes
+    docs.quiet()
+    document = docs.render(EARLIER_DECO)
+    if len(document.pages) < 2:
+        return False
+    page = document.pages[0]._page_box
+    bottom = page.content_box_y() + page.height
+    for box in page.descendants():
+        if isinstance(box, boxes.BlockBox) and box.element_tag == 'div':
+            return bool(box.padding_bottom) and box.border_box_y() + box.border_height() > bottom
+    return False
+
+
 def clone_negative_margin():
     docs.quiet()
     html = ('<style>@page{size:200px 120px;margin:0}html,body{margin:0}</style>'
@@ -269,6 +329,6 @@ MANIFEST = {
     'design_ref': 'DESIGN.md §4 C03',
     'technique': 'Lean 4 theorems on the pagination model (first content of an empty page is always accepted, by mutual '
                  'induction over all box trees; overflow test monotone), exact document-level correspondence',
-    'text': 'Proved for all documents of the block/paragraph grammar: a box laid out on an empty page always yields a fragment; every non-blank page strictly advances the resume position (C03.page_progress) and a blank page is followed by a non-blank one, so the page count is bounded by the content; the overflow predicate is monotone. Geometry of every line and box is compared exactly with the real layout; on the wide grammar the bottom edges of in-flow lines and table rows of real renders are checked by a Lean checker with a soundness theorem.',
-    'note': 'Partial: "every placed line fits unless first on its page" is carried for the model by the exact correspondence and for the wide grammar by sampled trace validation; footnote areas, flex and grid items are not checked geometrically.',
+    'text': 'Proved for all documents of the block/paragraph grammar: a box laid out on an empty page always yields a fragment; every non-blank page strictly advances the resume position (C03.page_progress) and a blank page is followed by a non-blank one, so the page count is bounded by the content; the overflow predicate is monotone. The decision that keeps an unbreakable block inside the page is characterised (C03Geo.firstPass_keep_fits / firstPass_discards_content_overflow / firstPass_relayout_border_overflow: a kept child is the first content of the page, or margins collapse through it, or its content box and border box end above the page bottom). Geometry of every line and box is compared exactly with the real layout (random documents and a deterministic family of fixed-height / empty padded blocks around the page bottom); on the wide grammar the bottom edges of in-flow lines and table rows of real renders are checked by a Lean checker with a soundness theorem.',
+    'note': 'Partial: "every placed line fits unless first on its page" is carried for the model by the exact correspondence and for the wide grammar by sampled trace validation; footnote areas, flex and grid items are not checked geometrically. Known findings (printed, not alarms) include earlier-break-keeps-bottom-decoration: find_earlier_page_break rebuilds the box it cuts without removing its bottom padding/border (kernel-checked witness on the model, reproduced on the code).',
 }
